@@ -58,15 +58,19 @@ fn initial_queries() -> Vec<QueryType> {
 fn base_world() -> Base {
     let init = serde_json::to_value(Queries(initial_queries())).unwrap();
     Base::build(
-        "c25-db1-owner-usr1-writer-usr2",
+        "c25-db1-owner-usr1-writer-usr2-dbadmin-usr3",
         &[
             Setup::AddUser("usr1"),
             Setup::AddUser("usr2"),
+            Setup::AddUser("usr3"),
             Setup::Login("usr1", "usr1"),
             Setup::Login("usr2", "usr2"),
+            Setup::Login("usr3", "usr3"),
             Setup::Call("usr1", "POST", "/db/usr1/db1/add?db_type=mapped".to_string(), None),
             Setup::Call("usr1", "POST", "/db/usr1/db1/exec_mut".to_string(), Some(init)),
             Setup::Call("usr1", "PUT", "/db/usr1/db1/user/usr2/add?db_role=write".to_string(), None),
+            // a NON-owner holding the db admin role
+            Setup::Call("usr1", "PUT", "/db/usr1/db1/user/usr3/add?db_role=admin".to_string(), None),
         ],
     )
 }
@@ -198,7 +202,13 @@ fn run_sequence(lab: &mut Lab, base: &Base, seq: &[Req], stats: Option<&Stats>, 
                 }
             }
         }
-        let sig = |clause: &str| format!("c25|ep={endpoint}|clause={clause}|status={}|mutated_before={mutated_before}|failing={failing}", resp.status);
+        let as_role = match req.caller.as_str() {
+            "usr1" => "owner",
+            "usr2" => "writer",
+            "usr3" => "db-admin",
+            _ => "server-admin",
+        };
+        let sig = |clause: &str| format!("c25|ep={endpoint}|as={as_role}|clause={clause}|status={}|mutated_before={mutated_before}|failing={failing}", resp.status);
         let ctx = format!("request {} {} answered {} {}", req.caller, req.op, resp.status, engine::normalise(&resp.text()));
         transcript.push(format!("{} {} -> {} dump={:016x} audit_len={}", req.caller, req.op, resp.status, engine::fnv(after["dump"].to_string().as_bytes()), after["audit"].as_array().map(|a| a.len()).unwrap_or(0)));
         if let Some(s) = states {
@@ -294,7 +304,7 @@ pub(crate) fn run(args: &Args) -> i32 {
     let core_idx: Vec<usize> = (0..CORE).collect();
     let bs = batches_over(&core_idx, max_len);
     // plans: (first requests, second requests); every first request alone and followed by every second request
-    let mut plans: Vec<(&str, Vec<Item>, Vec<Item>)> = vec![];
+    let mut plans: Vec<(&str, Vec<Item>, Vec<Item>, &str, &str)> = vec![];
     {
         // A: the seven core kinds, batches <= max_len, sequences <= 2
         let first = items(&bs, &user_eps);
@@ -304,13 +314,18 @@ pub(crate) fn run(args: &Args) -> i32 {
             let small: Vec<Vec<usize>> = bs.iter().filter(|b| b.len() <= 2).cloned().collect();
             second.extend(items(&small, &["admin-exec", "admin-exec_mut"]));
         }
-        plans.push(("core kinds", first, second));
+        plans.push(("core kinds: owner, then the non-owner writer", first, second, "usr1", "usr2"));
         // B: all kinds (incl. the result-0 mutations), short batches, sequences <= 2
         let all_short = batches(alpha.len(), args.tier.pick(1, 2));
         let f = items(&all_short, &user_eps);
-        plans.push(("all kinds, short batches", f.clone(), f));
+        plans.push(("all kinds, short batches: owner, then the non-owner db admin", f.clone(), f.clone(), "usr1", "usr3"));
+        // D: the submitting user is a non-owner with the db admin / write role from the first request on
+        plans.push(("all kinds, short batches: non-owner db admin, then the non-owner writer", f.clone(), f, "usr3", "usr2"));
+        let small: Vec<Vec<usize>> = bs.iter().filter(|b| b.len() <= 2).cloned().collect();
+        plans.push(("core kinds <= 2 queries, single request by the non-owner db admin", items(&small, &user_eps), vec![], "usr3", "usr3"));
+        plans.push(("core kinds <= 2 queries, single request by the non-owner writer", items(&small, &user_eps), vec![], "usr2", "usr2"));
         // C: all kinds, batches <= max_len, single requests
-        plans.push(("all kinds, single request", items(&batches(alpha.len(), max_len), &user_eps), vec![]));
+        plans.push(("all kinds, single request by the owner", items(&batches(alpha.len(), max_len), &user_eps), vec![], "usr1", "usr1"));
     }
     let work: Vec<(usize, usize)> = plans.iter().enumerate().flat_map(|(p, pl)| (0..pl.1.len()).map(move |i| (p, i))).collect();
     // work items: one per first request (runs the length-1 sequence and all its extensions)
@@ -324,10 +339,11 @@ pub(crate) fn run(args: &Args) -> i32 {
         let (pi, i) = work[wk];
         let (first, second) = (&plans[pi].1, &plans[pi].2);
         let mut lab = labs[wi].lock().unwrap();
-        let r1 = make_req("usr1", &first[i], &alpha);
+        let (c1, c2) = (plans[pi].3, plans[pi].4);
+        let r1 = make_req(c1, &first[i], &alpha);
         let mut todo: Vec<Vec<Req>> = vec![vec![r1.clone()]];
         for it in second {
-            let caller = if it.endpoint.starts_with("admin") { "admin" } else { "usr2" };
+            let caller = if it.endpoint.starts_with("admin") { "admin" } else { c2 };
             todo.push(vec![r1.clone(), make_req(caller, it, &alpha)]);
         }
         for (n, seq) in todo.iter().enumerate() {
@@ -372,7 +388,7 @@ pub(crate) fn run(args: &Args) -> i32 {
     report.set("traces_validated_against_impl", json!(stats.sequences.load(Ordering::Relaxed)));
     report.set("max_queries_per_batch", json!(max_len));
     report.set("query_alphabet", json!(alpha.iter().map(|a| a.0).collect::<Vec<_>>()));
-    report.set("plans", json!(plans.iter().map(|p| json!({"plan": p.0, "first_requests": p.1.len(), "second_requests": p.2.len()})).collect::<Vec<_>>()));
+    report.set("plans", json!(plans.iter().map(|p| json!({"plan": p.0, "first_requests": p.1.len(), "second_requests": p.2.len(), "first_caller": p.3, "second_caller": p.4})).collect::<Vec<_>>()));
     report.set("core_batches", json!(bs.len()));
     report.set("batches_applied_2xx", json!(stats.applied.load(Ordering::Relaxed)));
     report.set("batches_failed", json!(stats.failed.load(Ordering::Relaxed)));
